@@ -136,12 +136,103 @@ pub enum Expect {
 }
 
 /// Framing/triage reference on the bytes the server gets to see.
+/// An independent reading of one domain name (RFC 1035 section 4.1.4 with the
+/// server's documented rule that a pointer points before the place the current
+/// part of the name began): the labels in lower case and the position behind the
+/// name, or `None` for a name the server must refuse.
+pub fn ref_parse_name(bytes: &[u8], at: usize) -> Option<(Vec<Vec<u8>>, usize)> {
+    let mut labels: Vec<Vec<u8>> = Vec::new();
+    let mut len = 0usize;
+    let mut pos = at;
+    let mut part_start = at;
+    let mut end: Option<usize> = None;
+    loop {
+        let size = usize::from(*bytes.get(pos)?);
+        if size == 0 {
+            len += 1;
+            pos += 1;
+            break;
+        } else if size <= 63 {
+            let label = bytes.get(pos + 1..pos + 1 + size)?;
+            labels.push(label.to_ascii_lowercase());
+            len += 1 + size;
+            pos += 1 + size;
+        } else if size >= 192 {
+            let lo = usize::from(*bytes.get(pos + 1)?);
+            let target = ((size & 0x3f) << 8) | lo;
+            if target >= part_start {
+                return None;
+            }
+            if end.is_none() {
+                end = Some(pos + 2);
+            }
+            part_start = target;
+            pos = target;
+        } else {
+            // 64..=191: label types nobody defined
+            return None;
+        }
+        if len > 255 {
+            return None;
+        }
+    }
+    if len > 255 {
+        return None;
+    }
+    Some((labels, end.unwrap_or(pos)))
+}
+
+/// The question section read independently of the code under test: `None` when
+/// it is malformed, otherwise the names of the questions.
+pub fn ref_question_names(bytes: &[u8]) -> Option<Vec<Vec<Vec<u8>>>> {
+    if bytes.len() < 12 {
+        return None;
+    }
+    let qdcount = usize::from(u16::from_be_bytes([bytes[4], bytes[5]]));
+    let mut pos = 12;
+    let mut names = Vec::new();
+    for _ in 0..qdcount {
+        let (labels, next) = ref_parse_name(bytes, pos)?;
+        if next + 4 > bytes.len() {
+            return None;
+        }
+        names.push(labels);
+        pos = next + 4;
+    }
+    Some(names)
+}
+
 pub fn triage_reference(bytes: &[u8]) -> Expect {
     if bytes.len() < 2 {
         return Expect::NoReply;
     }
     let id = u16::from_be_bytes([bytes[0], bytes[1]]);
-    match Message::from_octets(bytes) {
+    let decoded = match Message::from_octets(bytes) {
+        // the decoder accepts it: the question section must be acceptable to an
+        // independent reading too, and say the same names
+        Ok(mut m) => match ref_question_names(bytes) {
+            None => Err(()),
+            Some(names) => {
+                for (q, labels) in m.questions.iter_mut().zip(names.iter()) {
+                    let got: Vec<Vec<u8>> = q.name.labels.iter().filter(|l| !l.is_empty()).map(|l| l.octets().to_vec()).collect();
+                    if &got != labels {
+                        // expect the name the client sent, not the one the decoder made of it
+                        let mut ls: Vec<dns_types::protocol::types::Label> = labels
+                            .iter()
+                            .filter_map(|l| dns_types::protocol::types::Label::try_from(&l[..]).ok())
+                            .collect();
+                        ls.push(dns_types::protocol::types::Label::new());
+                        if let Some(name) = dns_types::protocol::types::DomainName::from_labels(ls) {
+                            q.name = name;
+                        }
+                    }
+                }
+                Ok(m)
+            }
+        },
+        Err(_) => Err(()),
+    };
+    match decoded {
         Ok(m) => {
             if m.header.is_response {
                 Expect::NoReply
@@ -155,7 +246,7 @@ pub fn triage_reference(bytes: &[u8]) -> Expect {
                 Expect::Resolve(m)
             }
         }
-        Err(_) => {
+        Err(()) => {
             if bytes.len() >= 3 && bytes[2] & 0x80 != 0 {
                 Expect::NoReplyOrFormErr(id)
             } else {
@@ -473,7 +564,12 @@ fn gen_c09(seed: u64, _index: u64, tier: Tier) -> ServerPlan {
                     msg[4] = 0;
                     msg[5] = 1;
                     let shape = r.below(5);
+                    // (own random stream: label types nobody defined, 64..=191, followed by
+                    // an octet that would make a backward pointer of them)
+                    let mut r2 = Rng::new(seed ^ 0x1abe_17b0_0000 ^ (messages.len() as u64));
+                    let reserved = if r2.chance(0.5) { Some((*r2.pick(&[0x40u8, 0x80, 0x41, 0xBF]), r2.below(12) as u8)) } else { None };
                     let name: Vec<u8> = match shape {
+                        _ if reserved.is_some() => vec![reserved.unwrap().0, reserved.unwrap().1, 0],
                         0 => vec![1, b'a', 0xC0, 12],
                         1 => vec![3, b'w', b'w', b'w', 1, b'a', 0xC0, 16],
                         2 => vec![1, b'a', 0xC0, 40],
@@ -483,7 +579,10 @@ fn gen_c09(seed: u64, _index: u64, tier: Tier) -> ServerPlan {
                     msg.extend_from_slice(&name);
                     msg.extend_from_slice(&[0, 1, 0, 1]);
                     bytes = msg;
-                    what = format!("pointer game {shape} in question name");
+                    what = match reserved {
+                        Some((a, b)) => format!("reserved label type {a:#x} {b:#x} in question name"),
+                        None => format!("pointer game {shape} in question name"),
+                    };
                 }
             }
             _ => {}
